@@ -232,7 +232,7 @@ def make_pad(rng, nbytes, unicode_p=0.0):
     return "".join(out)
 
 
-SIZE_CLASSES = {"tiny": 0, "k8": 9000, "k64": 70000, "k160": 160000, "k256": 270000, "k600": 600000}
+SIZE_CLASSES = {"tiny": 0, "k8": 9000, "k64": 70000, "k160": 160000, "k256": 270000, "k600": 600000, "m1": 1200000, "m2": 2000000}
 
 
 class Gen:
@@ -304,6 +304,14 @@ class Gen:
         if crlf:
             for s in segs:
                 s[-1] = s[-1].replace("\n", "\r\n")
+        elif getattr(self, "cr_p", 0) and rng.random() < self.cr_p:
+            # a stray carriage return (classic Mac line end, a botched merge) in front of the statements: not a line break
+            # for anybody who counts lines by LF
+            pads = [s for s in segs if s[0] == "pad" and "\n" in s[-1]]
+            if pads:
+                s = pads[0]
+                i = s[-1].index("\n")
+                s[-1] = s[-1][:i] + " // cr\r" + rng.choice(["", "    "]) + "const _CR: u8 = 13;" + s[-1][i:]
         return segs
 
 
@@ -396,7 +404,7 @@ def gen_ids(rng, n, p_have=0.4, lo=1, hi=60, special=None):
 
 def gen_world_model(rng, structured=None, use_cache="rand", nfiles=None, sizes=None, p_have=0.4, id_hi=60,
                     lock="rand", shapes=None, max_stmts=4, min_missing=1, special_ids=None, crlf_p=0.0, unicode_p=None,
-                    decoy_p=0.25, custom_macros_p=0.15, layout_p=0.1, heads_p=0.12, many=None, extra_keys_p=0.3, modes_p=0.15, mtimes_p=0.3, many_files=None, many_exact=False, yaml_style_p=0.3, high_ids_p=0.08, links_p=0.12, hardlinks_p=0.08):
+                    decoy_p=0.25, custom_macros_p=0.15, layout_p=0.1, heads_p=0.12, many=None, extra_keys_p=0.3, modes_p=0.15, mtimes_p=0.3, many_files=None, many_exact=False, yaml_style_p=0.3, high_ids_p=0.08, links_p=0.12, hardlinks_p=0.08, big_p=0.0, cr_p=0.04):
     """A project with generated in-scope source files under proj/src (nested sometimes)."""
     if unicode_p is None:
         unicode_p = rng.choice([0.0, 0.0, 0.0, 0.3, 0.9])
@@ -407,6 +415,7 @@ def gen_world_model(rng, structured=None, use_cache="rand", nfiles=None, sizes=N
                              [("crate::util::log", "info"), ("my::log", "warn")], [("log", "info"), ("other", "info")],
                              [("log", "r#try"), ("log", "info")][1:], [("log", "_trace"), ("log", "info2")]])
     g = Gen(rng, macros)
+    g.cr_p = cr_p
     if structured is None:
         structured = rng.random() < 0.4
     cfg = {"source_dir": rng.choice(["./src", "src"]), "structured": structured if (structured or rng.random() < 0.5) else None}
@@ -451,6 +460,8 @@ def gen_world_model(rng, structured=None, use_cache="rand", nfiles=None, sizes=N
                 ids.append(None)
         missing += sum(1 for i in ids if i is None)
         sc = rng.choice(sizes or ["tiny", "tiny", "tiny", "k8", "k64"])
+        if big_p and rng.random() < big_p:
+            sc = rng.choice(["k600", "m1", "m2"])      # generated tables, bindings: files of one or two megabytes exist
         files["proj/src/" + names[fi]] = g.source_file(structured, ns, sc, ids, shapes, crlf=rng.random() < crlf_p,
                                                        unicode_p=unicode_p, decoy_p=decoy_p, layout_p=layout_p)
     if many_files:
